@@ -33,23 +33,35 @@ FreqOK(e) ==
        /\ \A k \in 1..e.K : IsNum(e.q[i][k]) /\ QNear(e.q[i][k], Fn(e, i, k), Fd(e, i), Q12, 1)
        /\ Abs(PlainSum(e.q[i], e.K) - Q12) <= e.K
 
-WeightCellOK(q, fnum, fden, bn, bd, k) ==
+\* optional per-symbol binary shift of the background: frequency of k = bn[k] / (bd * 2^bsh[k]) (very small, non-zero
+\* frequencies, whose weights leave the 32-bit grid: only "zero exactly when the frequency is zero" is checked there)
+Bsh(e, k) == IF "bsh" \in DOMAIN e THEN e.bsh[k] ELSE 0
+WeightCellOK(q, fnum, fden, bn, bd, k, sh) ==
   IF bn[k] = 0 THEN q = 0
+  ELSE IF sh > 0 THEN (q = 0) = (fnum = 0) /\ q >= 0
   ELSE IsNum(q) /\ LET w == WeightRat(fnum, fden, bn, bd, k) IN QNear(q, w[1], w[2], Q12, 2)
 WeightOK(e, bn, bd) ==
   /\ Shape(e)
-  /\ \A i \in 1..Len(e.m) : \A k \in 1..e.K : WeightCellOK(e.q[i][k], Fn(e, i, k), Fd(e, i), bn, bd, k)
+  /\ \A i \in 1..Len(e.m) : \A k \in 1..e.K : WeightCellOK(e.q[i][k], Fn(e, i, k), Fd(e, i), bn, bd, k, Bsh(e, k))
+\* What the code does, named: rescale multiplies the stored weights by old/new background, so a column that was zeroed
+\* under an earlier background with frequency 0 stays 0 (the frequencies are no longer known), whatever comes later.
+ZeroedBefore(e, k) == e.bn[k] = 0 \/ ("chain" \in DOMAIN e /\ \E c \in 1..Len(e.chain) : e.chain[c][k] = 0)
+RescaleOK(e, bn, bd) ==
+  /\ Shape(e)
+  /\ \A i \in 1..Len(e.m) : \A k \in 1..e.K :
+        IF ZeroedBefore(e, k) THEN e.q[i][k] = 0 ELSE WeightCellOK(e.q[i][k], Fn(e, i, k), Fd(e, i), bn, bd, k, 0)
 
-ScoreCellOK(q, fnum, fden, bn, bd, k, basen, based) ==
+ScoreCellOK(q, fnum, fden, bn, bd, k, basen, based, sh) ==
   IF bn[k] = 0 \/ fnum = 0 THEN q = NINF
   ELSE /\ IsNum(q)
        /\ LET w == WeightRat(fnum, fden, bn, bd, k)
               r == Shrink(w[1], w[2])
-          IN Abs(q - LogBaseFx(r[1], r[2], basen, based)) <= 6
+              shift == (sh * 1024 * 1024) \div (Lg(basen) - Lg(based))     \* log_base(2^sh)
+          IN Abs(q - (LogBaseFx(r[1], r[2], basen, based) + shift)) <= 6
 ScoringOK(e) ==
   /\ Shape(e)
   /\ \A i \in 1..Len(e.m) : \A k \in 1..e.K :
-        ScoreCellOK(e.q[i][k], Fn(e, i, k), Fd(e, i), e.bn, e.bd, k, e.basen, e.based)
+        ScoreCellOK(e.q[i][k], Fn(e, i, k), Fd(e, i), e.bn, e.bd, k, e.basen, e.based, Bsh(e, k))
 MinMaxOK(e) ==
   LET fin == \A i \in 1..Len(e.q) : \A k \in 1..(e.K - 1) : IsNum(e.q[i][k]) IN
   fin => /\ Abs(e.min - MinScoreOf(e.q, e.K)) <= Len(e.q) + 1
@@ -65,14 +77,15 @@ Apply(s, e) ==
              st |-> s, exp |-> [why |-> IF eq THEN "wrong_counts" ELSE "unequal_lengths_accepted"]]
     [] e.ev = "to_freq"   -> [ok |-> FreqOK(e), st |-> s, exp |-> [why |-> "frequency"]]
     [] e.ev = "to_weight" -> [ok |-> WeightOK(e, e.bn, e.bd), st |-> s, exp |-> [why |-> "weight"]]
-    [] e.ev = "rescale"   -> [ok |-> WeightOK(e, e.bn2, e.bd2), st |-> s, exp |-> [why |-> "rescale"]]
+    [] e.ev = "rescale"   -> [ok |-> RescaleOK(e, e.bn2, e.bd2), st |-> s, exp |-> [why |-> "rescale"]]
     [] e.ev = "rescale_chain" ->
          \* a history of rescales on one weight matrix ends with the weights, the reported background and the
          \* log-odds of the LAST background
-         LET a == WeightOK(e, e.bn2, e.bd2)
+         LET a == RescaleOK(e, e.bn2, e.bd2)
              b == \A k \in 1..e.K : QNear(e.bgq[k], e.bn2[k], e.bd2, Q12, 1)
              c == Len(e.s) = Len(e.m) /\ \A i \in 1..Len(e.m) : \A k \in 1..e.K :
-                    ScoreCellOK(e.s[i][k], Fn(e, i, k), Fd(e, i), e.bn2, e.bd2, k, 2, 1)
+                    IF ZeroedBefore(e, k) THEN e.s[i][k] = NINF
+                    ELSE ScoreCellOK(e.s[i][k], Fn(e, i, k), Fd(e, i), e.bn2, e.bd2, k, 2, 1, 0)
          IN [ok |-> a /\ b /\ c, st |-> s,
              exp |-> [why |-> IF ~a THEN "rescale_chain_weights" ELSE IF ~b THEN "rescale_chain_reported_background" ELSE "rescale_chain_log_odds"]]
     [] e.ev = "to_scoring" ->
